@@ -111,6 +111,16 @@ pub fn known(case: &Case, _msg: &str) -> Option<&'static str> {
             return Some("KF-2");
         }
     }
+    // KF-3: Hebrew letter + '-' + alphanumeric combining mark, Unicode separator, hyphen splitter (found by the
+    // thorough tier after ~3.5*10^8 cases); attributed only if the same case holds without the splitter
+    if o.split == Split::Hyphen && o.sep == Sep::Unicode && crate::oracle::words::hebrew_hyphen_mark(case.t(0)) {
+        let mut c2 = case.clone();
+        c2.opts[0].split = Split::None;
+        let mut obs = Obs::default();
+        if matches!(check(&c2, &mut obs), Verdict::Held { .. } | Verdict::Skipped(_)) {
+            return Some("KF-3");
+        }
+    }
     None
 }
 
@@ -151,6 +161,46 @@ fn extra(cfg: &RunCfg, w: &mut Worker) {
         w.note_exhaustive(
             "small-strings",
             &format!("all strings of <= {} tokens over {{a,' ','-',你,U+0301,ESC[m}} x widths 0..=6 x option grid (cases outside the stated domain are skipped and counted; sharded; this worker ran {})", max, n),
+            n * threads as u64,
+        );
+    }
+    // exhaustive strings over a "hyphen context" alphabet: what the hyphen splitter cuts apart may have been one
+    // unit for UAX #14 (KF-3 was found by chance after 3.5*10^8 random cases; this sub-run makes the whole
+    // neighbourhood of that finding a deterministic part of every run)
+    let ctx: &[&str] = &["\u{5e1}", "a", "1", "-", "\u{6ed}", "\u{301}", "\u{5b0}", "\u{93e}", "\u{200d}", "\u{4f60}", "\u{1f1f5}", " "];
+    let max = if cfg.thorough { 5 } else { 4 };
+    let mut idx = 0usize;
+    let mut todo = Vec::new();
+    crate::gen::text::enumerate_strings(ctx, max, |s| {
+        if s.contains('-') {
+            if idx % threads == w.id {
+                todo.push(s.to_string());
+            }
+            idx += 1;
+        }
+    });
+    let mut n = 0u64;
+    'outer2: for s in todo {
+        for width in 0..=3usize {
+            for g in small_option_grid() {
+                if g.split != Split::Hyphen {
+                    continue;
+                }
+                if w.stopped() {
+                    break 'outer2;
+                }
+                let mut o = g.clone();
+                o.width = width;
+                w.run_case(&Case::new("fill").text(s.clone()).opt(o));
+                n += 1;
+            }
+        }
+    }
+    *w.stats.counters.entry("hyphen_context_strings".to_string()).or_insert(0) += n;
+    if w.id == 0 {
+        w.note_exhaustive(
+            "hyphen-context-strings",
+            &format!("all strings of <= {} tokens containing '-' over {{Hebrew samekh, a, 1, '-', U+06ED, U+0301, U+05B0, U+093E, ZWJ, U+4F60, regional indicator P, ' '}} x widths 0..=3 x option grid with the hyphen splitter (sharded; this worker ran {})", max, n),
             n * threads as u64,
         );
     }
